@@ -363,6 +363,9 @@ func replayInstance1(eng *Engine, rf *ReplayFile, o *Obligation, model map[strin
 		return "not-attempted"
 	}
 	kind := o.Kind
+	if kind == "pre" && strings.Contains(o.Label, ".nopanic") {
+		kind = "safe:callee-panic" // "the callee does not panic here": replayed like any other absence-of-panic obligation
+	}
 	if kind != "post" && !strings.HasPrefix(kind, "safe:") {
 		rf.Replay["reason"] = "replay is generated for post: and safe: obligations only"
 		return "not-attempted"
@@ -465,7 +468,7 @@ func replayInstance1(eng *Engine, rf *ReplayFile, o *Obligation, model map[strin
 			}
 			continue
 		}
-		fmt.Fprintf(body, "\tif !verifHolds(func() any { return %s }) {\n\t\tt.Fatalf(\"VERIF-REPLAY-PRECONDITION: requires #%d does not hold on the constructed input\")\n\t}\n", e, i)
+		fmt.Fprintf(body, "\tif !verifHolds(func() any { return %s }) {\n\t\tverifT.Fatalf(\"VERIF-REPLAY-PRECONDITION: requires #%d does not hold on the constructed input\")\n\t}\n", e, i)
 	}
 	if strings.HasPrefix(kind, "safe:") {
 		for i, pw := range fr.Contract.PanicsWhen {
@@ -475,12 +478,13 @@ func replayInstance1(eng *Engine, rf *ReplayFile, o *Obligation, model map[strin
 				rf.Replay["reason"] = "the function may panic by contract and that condition cannot be evaluated (" + pg.failed + ")"
 				return "not-attempted"
 			}
-			fmt.Fprintf(body, "\tif verifHolds(func() any { return %s }) {\n\t\tt.Fatalf(\"VERIF-REPLAY-PRECONDITION: panics-when #%d holds: a panic is the contracted behaviour\")\n\t}\n", e, i)
+			fmt.Fprintf(body, "\tif verifHolds(func() any { return %s }) {\n\t\tverifT.Fatalf(\"VERIF-REPLAY-PRECONDITION: panics-when #%d holds: a panic is the contracted behaviour\")\n\t}\n", e, i)
 		}
 	}
 	for i, oe := range g.olds {
 		fmt.Fprintf(body, "\told%d := %s; _ = old%d\n", i, oe, i)
 	}
+	fmt.Fprintf(body, "\tvb.ResetCalls()\n")
 	// call
 	callee := fn.Name()
 	args := argNames
@@ -493,7 +497,7 @@ func replayInstance1(eng *Engine, rf *ReplayFile, o *Obligation, model map[strin
 		call = callee + "(" + strings.Join(args, ", ") + "...)"
 	}
 	if strings.HasPrefix(kind, "safe:") {
-		fmt.Fprintf(body, "\tdefer func() {\n\t\tif r := recover(); r != nil {\n\t\t\tt.Fatalf(\"VERIF-REPLAY-CONFIRMED: panic: %%v\", r)\n\t\t}\n\t}()\n")
+		fmt.Fprintf(body, "\tdefer func() {\n\t\tif r := recover(); r != nil {\n\t\t\tverifT.Fatalf(\"VERIF-REPLAY-CONFIRMED: panic: %%v\", r)\n\t\t}\n\t}()\n")
 		if nres > 0 {
 			fmt.Fprintf(body, "\t%s = %s\n", strings.Repeat("_, ", nres-1)+"_", call)
 		} else {
@@ -508,7 +512,7 @@ func replayInstance1(eng *Engine, rf *ReplayFile, o *Obligation, model map[strin
 		} else {
 			fmt.Fprintf(body, "\t%s\n", call)
 		}
-		fmt.Fprintf(body, "\tif !(%s) {\n\t\tt.Fatalf(\"VERIF-REPLAY-CONFIRMED: clause violated\")\n\t}\n", check)
+		fmt.Fprintf(body, "\tif !(%s) {\n\t\tverifT.Fatalf(\"VERIF-REPLAY-CONFIRMED: clause violated\")\n\t}\n", check)
 	}
 	// packages the compiled clause names (conversions, constants, type assertions)
 	for _, ip := range fn.Pkg.Pkg.Imports() {
@@ -539,7 +543,7 @@ func replayInstance1(eng *Engine, rf *ReplayFile, o *Obligation, model map[strin
 	if strings.Contains(replayHelpers, "verifErrCode") && !imports[eng.modPath+"/internal/qerr"] {
 		// helper needs qerr + errors: emit separately below
 	}
-	sb.WriteString("\nfunc TestVerifReplay(t *testing.T) {\n")
+	sb.WriteString("\nfunc TestVerifReplay(verifT *testing.T) {\n")
 	sb.WriteString(body.String())
 	sb.WriteString("}\n")
 	src := sb.String()
@@ -911,7 +915,7 @@ func buildReplayInputs(eng *Engine, fn *ssa.Function, o *Obligation, model map[s
 	if len(roots) > 0 {
 		fmt.Fprintf(body, "\tvb.Fill(%s)\n", strings.Join(roots, ", "))
 	}
-	fmt.Fprintf(body, "\tfor _, n := range vb.notes { t.Log(\"verif builder: \" + n) }\n")
+	fmt.Fprintf(body, "\tfor _, n := range vb.notes { verifT.Log(\"verif builder: \" + n) }\n")
 	return body.String(), argNames, ""
 }
 
@@ -1217,6 +1221,7 @@ type verifBuilder struct {
 	arrays   map[string]reflect.Value
 	defaults map[reflect.Type]reflect.Value
 	always   map[reflect.Type]bool
+	calls    map[string]int // calls of the no-op callbacks Fill installed, by struct field name
 	notes    []string
 }
 
@@ -1236,7 +1241,7 @@ func (b *verifBuilder) UseDefault(root any, path string) {
 }
 
 func newVerifBuilder() *verifBuilder {
-	return &verifBuilder{staged: map[string]*verifMapEntry{}, objs: map[string]reflect.Value{}, arrays: map[string]reflect.Value{}, defaults: map[reflect.Type]reflect.Value{}, always: map[reflect.Type]bool{}}
+	return &verifBuilder{staged: map[string]*verifMapEntry{}, objs: map[string]reflect.Value{}, arrays: map[string]reflect.Value{}, defaults: map[reflect.Type]reflect.Value{}, always: map[reflect.Type]bool{}, calls: map[string]int{}}
 }
 
 func verifSettable(v reflect.Value) reflect.Value {
@@ -1405,6 +1410,14 @@ func (b *verifBuilder) commitMaps() {
 	b.order = nil
 }
 
+func (b *verifBuilder) ResetCalls() {
+	for k := range b.calls {
+		delete(b.calls, k)
+	}
+}
+
+func (b *verifBuilder) Called(field string) any { return big.NewInt(int64(b.calls[field])) }
+
 func (b *verifBuilder) Bool(root any, path string, val bool) {
 	if v, ok := b.at(root, path); ok && v.Kind() == reflect.Bool {
 		v.SetBool(val)
@@ -1503,10 +1516,13 @@ func (b *verifBuilder) Fill(roots ...any) {
 	b.commitMaps()
 	seen := map[uintptr]bool{}
 	var walk func(v reflect.Value, d int)
+	fieldName := ""
 	walk = func(v reflect.Value, d int) {
 		if d > 8 {
 			return
 		}
+		fname := fieldName
+		fieldName = ""
 		switch v.Kind() {
 		case reflect.Ptr:
 			if v.IsNil() || seen[v.Pointer()] {
@@ -1524,6 +1540,7 @@ func (b *verifBuilder) Fill(roots ...any) {
 			walk(v.Elem(), d+1)
 		case reflect.Struct:
 			for i := 0; i < v.NumField(); i++ {
+				fieldName = v.Type().Field(i).Name
 				walk(verifSettable(v.Field(i)), d+1)
 			}
 		case reflect.Slice:
@@ -1543,6 +1560,7 @@ func (b *verifBuilder) Fill(roots ...any) {
 			if v.IsNil() && v.CanSet() && d > 0 {
 				ft := v.Type()
 				v.Set(reflect.MakeFunc(ft, func([]reflect.Value) []reflect.Value {
+					b.calls[fname]++ // observable through called("field:<name>") in the replayed clause
 					out := make([]reflect.Value, ft.NumOut())
 					for i := range out {
 						out[i] = reflect.Zero(ft.Out(i))
